@@ -75,6 +75,7 @@ package nsqd
 //@ func (c *Channel) initPQ()
 //@   props C08 C02
 //@   requires c != nil && c.nsqd != nil
+//@   modifies c.inFlightMessages, c.inFlightPQ, c.deferredMessages, c.deferredPQ, mapstore(map[MessageID]*Message), mapstore(map[MessageID]*pqueue.Item), Message.index, elems(*Message), elems(*pqueue.Item)
 //@   loop 0
 //@     invariant atlock(bidx(c.inFlightPQ, len(c.inFlightPQ))) && c.inFlightPQ == atlock(c.inFlightPQ)
 //@     invariant[elems-kept] forall k int :: {c.inFlightPQ[k]} 0 <= k && k < len(c.inFlightPQ) ==> c.inFlightPQ[k] == atlock(c.inFlightPQ[k])
